@@ -341,7 +341,7 @@ def body(ctx, rng, bg, th):
                                                     "transition_classes": 0})
     starts = list(range(1, NWARM + 1))
     # ---- M + script generation (one run: the invariants are checked on every state explored)
-    depth = ctx.pick(3, 5)
+    depth = ctx.pick(3, 4)
     res = ctx.model_check("ZoektSeq", "ZoektSeq_mc.cfg", name="tlc_bfs", workers=1, timeout=3000,
                           defines=defines(2, depth, starts, "bfs"))
     bfs = scripts_of(res, 2, "bfs")
@@ -364,12 +364,12 @@ def body(ctx, rng, bg, th):
             raise vk.Inconclusive("the strict model (no allowance for the inherited sidecar) was expected to violate "
                                   "Holds: %s" % bad.log)
         # seeded random walks over three repositories
-        walks = ctx.tlc("ZoektSeq", "ZoektSeq_mc.cfg", name="tlc_sim", simulate="num=60", depth=20, seed=ctx.seed,
-                        timeout=3000, count=False, deadlock=False, defines=defines(3, 14, [1, 2], "sim", ticks=2))
+        walks = ctx.tlc("ZoektSeq", "ZoektSeq_mc.cfg", name="tlc_sim", simulate="num=40", depth=20, seed=ctx.seed,
+                        timeout=3000, count=False, deadlock=False, defines=defines(3, 12, [1, 2], "sim", ticks=2))
         if not walks.ok:
             raise vk.Inconclusive("simulation run failed (%s): %s" % (walks.invariant or walks.error, walks.log))
         sim = scripts_of(walks, 3, "sim")
-        if len(sim) < 30:
+        if len(sim) < 20:
             raise vk.Inconclusive("too few random walks from TLC: %d (%s)" % (len(sim), walks.log))
 
     # predictions by history
@@ -385,7 +385,7 @@ def body(ctx, rng, bg, th):
     real = ("index", "merge", "vacuum", "cleanup")
     first = [s for s in bfs if s["n"] == 1 and s["ops"][-1]["op"] in real]
     rest = [s for s in bfs if s["n"] > 1 and s["ops"][-1]["op"] in real]
-    budget = ctx.pick(40, 600) * PROCS
+    budget = ctx.pick(40, 350) * PROCS
     chosen, tree, classes = choose(rng, first + sim, rest, pred, budget + sum(cost(o) for s in sim for o in s["ops"]))
     ctx.log("executing %d scripts (%d first steps after a warm start, %d random walks, %d selected of %d others): "
             "%d operations, %d classes of transitions, estimated %.0f s in %d processes on a busy machine" % (
